@@ -26,6 +26,8 @@ use crate::{
 
 type QuicConn = (Connection, QuicFrameSessions);
 
+const HANDSHAKE_TIMEOUT: std::time::Duration = std::time::Duration::from_secs(10);
+
 #[derive(Serialize, Deserialize)]
 #[serde(rename_all = "camelCase")]
 pub struct QuicConnector {
@@ -95,10 +97,21 @@ impl super::Connector for QuicConnector {
             .unwrap()
             .local_addr()
             .context("local_addr")?;
-        let ret = self
-            .clone()
-            .handshake(conn, sessions, ctx.clone(), remote, local)
-            .await;
+        // The connection is shared and long lived. When the upstream went away without closing it (crash,
+        // restart) nothing fails locally: streams open fine and the request is simply never answered, so
+        // give the upstream a bounded time and stop using the connection if it stays silent.
+        let ret = tokio::time::timeout(
+            HANDSHAKE_TIMEOUT,
+            self.clone()
+                .handshake(conn, sessions, ctx.clone(), remote, local),
+        )
+        .await
+        .unwrap_or_else(|_| {
+            Err(err_msg(format!(
+                "quic: no answer from upstream within {} seconds",
+                HANDSHAKE_TIMEOUT.as_secs()
+            )))
+        });
         match ret {
             Ok(()) => Ok(()),
             Err(e) => {
